@@ -227,6 +227,11 @@ def cov_lines(tier, rng, consts):
                       rng.getrandbits(64 * n) | 1, 1, R - 1]
             for m2 in dict.fromkeys(x for x in others if 0 < x < R and x & 1):
                 yield f"c08.params_cteq {n} {hx(m)} {hx(m2)}"
+            # several operations on ONE multiplier object (its product buffer must be cleared between them)
+            for ops in ("ms", "ss", "sm", "mms", "smsm", "sssss", "msmsmsms"):
+                xx, yy = rng.getrandbits(64 * n), rng.choice([rng.getrandbits(64 * n), m - 1, 2, R - 1])
+                yield f"c08.mmseq dyn {n} {hx(m)} {hx(xx)} {hx(yy)} {ops}"
+                yield f"c08.mmseq boxed {n} {hx(m)} {hx(xx)} {hx(yy)} {ops}"
             # selection between two different parameter sets (different leading-zero counts, different -1/m mod 2^64)
             for m2 in dict.fromkeys([3, (1 << 17) - 1, R - 1, (R >> 1) + 1, (R >> 65 | 1) if n > 1 else 5, rng.getrandbits(64 * n) | 1]):
                 if 0 < m2 < R and m2 != m:
